@@ -36,6 +36,12 @@ func (w *World) MakeExit(st common.BeaconState, idx common.ValidatorIndex, epoch
 	return &phase0.SignedVoluntaryExit{Message: ex, Signature: w.C.Sign1(signer, common.ComputeSigningRoot(ex.HashTreeRoot(hFn), dom))}
 }
 
+// MakeExitDom: the same under an explicit domain.
+func (w *World) MakeExitDom(idx common.ValidatorIndex, epoch common.Epoch, signer KeyNum, dom common.BLSDomain) *phase0.SignedVoluntaryExit {
+	ex := phase0.VoluntaryExit{Epoch: epoch, ValidatorIndex: idx}
+	return &phase0.SignedVoluntaryExit{Message: ex, Signature: w.C.Sign1(signer, common.ComputeSigningRoot(ex.HashTreeRoot(hFn), dom))}
+}
+
 func (g *Gen) exitCase(what string, v *View, ex *phase0.SignedVoluntaryExit) string {
 	f := NewFacts(v)
 	if h := f.Head(); h != nil {
@@ -67,6 +73,12 @@ func (g *Gen) genExits(w *World, heads []*Node, sample []common.ValidatorIndex, 
 		k := w.KeyOf(i)
 		g.exitCase("sig-other-key", v, w.MakeExit(st, i, cur, k+1, common.DOMAIN_VOLUNTARY_EXIT))
 		g.exitCase("sig-wrong-domain", v, w.MakeExit(st, i, cur, k, common.DOMAIN_BEACON_PROPOSER))
+		for _, e := range []common.Epoch{cur, cur - 1} {
+			if adj, ok := w.AdjacentForkEpoch(e); ok && e <= cur {
+				// an exit for epoch e signed under the fork version of the neighbouring epoch
+				g.exitCase("sig-domain-of-adjacent-fork", v, w.MakeExitDom(i, e, k, w.DomainAt(common.DOMAIN_VOLUNTARY_EXIT, adj)))
+			}
+		}
 		{
 			ex := w.MakeExit(st, i, cur, k, common.DOMAIN_VOLUNTARY_EXIT)
 			ex.Signature = garbageSig(1)
@@ -195,6 +207,17 @@ func (g *Gen) genProposerSlashings(w *World, heads []*Node, sample []common.Vali
 			ps.SignedHeader1 = w.SignHeader(st, ps.SignedHeader1.Message, k, common.DOMAIN_BEACON_PROPOSER, ep+40)
 			ps.SignedHeader2 = w.SignHeader(st, ps.SignedHeader2.Message, k, common.DOMAIN_BEACON_PROPOSER, ep+40)
 			g.propSlCase("sig-domain-of-other-epoch", v, ps) // same fork version unless a fork lies between: may still verify
+			if adj, ok := w.AdjacentForkEpoch(ep); ok {
+				signUnder := func(h common.BeaconBlockHeader) common.SignedBeaconBlockHeader {
+					return common.SignedBeaconBlockHeader{Message: h, Signature: w.C.Sign1(k, common.ComputeSigningRoot(h.HashTreeRoot(hFn), w.DomainAt(common.DOMAIN_BEACON_PROPOSER, adj)))}
+				}
+				ps = mk()
+				ps.SignedHeader1, ps.SignedHeader2 = signUnder(ps.SignedHeader1.Message), signUnder(ps.SignedHeader2.Message)
+				g.propSlCase("sig-domain-of-adjacent-fork", v, ps)
+				ps = mk()
+				ps.SignedHeader2 = signUnder(ps.SignedHeader2.Message)
+				g.propSlCase("sig2-domain-of-adjacent-fork", v, ps)
+			}
 		}
 		for _, x := range []uint64{n, n + 3, ^uint64(0)} {
 			g.propSlCase("proposer-out-of-range", v, w.MakeProposerSlashing(st, common.ValidatorIndex(x), slot, k))
@@ -350,6 +373,14 @@ func (g *Gen) genAttesterSlashings(w *World, heads []*Node, special map[string]c
 			sl = mk(A, B, d1, d2)
 			sl.Attestation1 = w.MakeIndexed(st, A, d1, w.keysOf(A), common.DOMAIN_BEACON_PROPOSER)
 			g.attSlCase("sig1-wrong-domain", v, sl)
+			if adj, ok := w.AdjacentForkEpoch(d1.Target.Epoch); ok {
+				sl = mk(A, B, d1, d2)
+				sl.Attestation1.Signature = w.C.Sign(w.keysOf(A), common.ComputeSigningRoot(d1.HashTreeRoot(hFn), w.DomainAt(common.DOMAIN_BEACON_ATTESTER, adj)))
+				g.attSlCase("sig1-domain-of-adjacent-fork", v, sl)
+				sl = mk(A, B, d1, d2)
+				sl.Attestation2.Signature = w.C.Sign(w.keysOf(B), common.ComputeSigningRoot(d2.HashTreeRoot(hFn), w.DomainAt(common.DOMAIN_BEACON_ATTESTER, adj)))
+				g.attSlCase("sig2-domain-of-adjacent-fork", v, sl)
+			}
 			sl = mk(A, B, d1, d2)
 			sl.Attestation2 = w.MakeIndexed(st, B, d1, w.keysOf(B), common.DOMAIN_BEACON_ATTESTER)
 			sl.Attestation2.Data = d2
